@@ -175,6 +175,22 @@ void apply_step_real_D(AnyView<E, P>& v, Step const& s) {
 				if(code == 2) { if(s.mode == 2) out(csub(r(0), i1)); else out(sub(r(0), i1)); break; }
 				if(code == 0) { if(s.mode == 2) out(csub(r(0), r(1))); else out(sub(r(0), r(1))); break; }
 			}
+		} else if(s.nargs == 4) {
+			if constexpr(D >= 4) {
+				// every combination of index / range arguments, through nested generic lambdas
+				auto arg = [&](int k, auto&& f) {
+					if(s.ak[k] == 0) f(static_cast<multi::index>(s.aa[k]));
+					else f(r(k));
+				};
+				arg(0, [&](auto a0) { arg(1, [&](auto a1) { arg(2, [&](auto a2) { arg(3, [&](auto a3) {
+					constexpr int nidx = (std::is_same_v<decltype(a0), multi::index> ? 1 : 0) + (std::is_same_v<decltype(a1), multi::index> ? 1 : 0) + (std::is_same_v<decltype(a2), multi::index> ? 1 : 0) + (std::is_same_v<decltype(a3), multi::index> ? 1 : 0);
+					if constexpr(D - nidx >= 1) {
+						if(s.mode == 0) out(std::move(sub)(a0, a1, a2, a3));
+						else if(s.mode == 1) out(sub(a0, a1, a2, a3));
+						else out(csub(a0, a1, a2, a3));
+					}
+				}); }); }); });
+			}
 		} else if(s.nargs == 3) {
 			if constexpr(D >= 3) {
 				if constexpr(D >= 4) {
